@@ -220,9 +220,25 @@ def gen_case(ctx, g, focus=None):
                 asg.append((r.randint(0, 11), ('fld', 'a', 1)))
             qa['kind'] = ('update', asg)
             qa['where'] = None
+    hdrA = hdrB = None
+    if focus in (None, 'join') and join is not None and qa.get('join') is join and qa['kind'][0] == 'select' and not qa.get('group') and r.random() < 0.35:
+        # both tables with a HEADER; the join table with a header and NO records on purpose: rbql-js raises max_record_len to the number
+        # of join column names after build(), so LEFT JOIN's all-null record has one field per join column (fix c71773a, D27; Join.widen).
+        # TableIterator wants the header as wide as the first record of a non-empty table.
+        if r.random() < 0.4:
+            B = []
+        if join['kind'] == 'left' and r.random() < 0.5:
+            qa['kind'] = ('select', [('expr', ('fld', 'a', 0))] + r.sample([('starb',), ('star',), ('expr', ('fld', 'b', r.randint(0, nb - 1))), ('expr', ('bNF',))], r.randint(1, 3)))
+        hdrA = ['ha%d' % (i + 1) for i in range(len(A[0]) if A else na)]
+        hdrB = ['hb%d' % (i + 1) for i in range(len(B[0]) if B else nb + r.choice([0, 0, 1]))]
+        join['hw'] = len(hdrB)
+        tags.append('headers')
     rend = qmodel.Renderer('js', r)
     c = {'qa': qa, 'A': A, 'B': B, 'tags': tags}
     c['qjs'] = rend.query(qa)
+    if hdrB is not None:
+        c['hdrA'], c['hdrB'] = hdrA, hdrB
+        c['qjs'] = c['qjs'].replace('a.NR', 'aNR').replace('b.NR', 'bNR')      # with a header a.NR / b.NR name a COLUMN called NR (O33)
     c['q'] = c['qjs']
     return c
 
@@ -354,6 +370,10 @@ def js_leg(ctx, theorem, focus, n):
     for c, e in zip(cases, exp):
         if e is not None and (e['error'] or any(x[0] == 'W' for x in e['events'])):
             ctx.nontriv(('js', c['qjs'], json.dumps(c['A']), json.dumps(c['B'])))
+        if e is not None and c.get('hdrB') is not None and (c['qa'].get('join') or {}).get('kind') == 'left' and any(x[0] == 'W' for x in e['events']):
+            ctx.stat('js_left_join_with_header_rows_written')
+            if not c['B']:
+                ctx.stat('js_left_join_header_only_table_rows_written')
     ctx.rule += '; JavaScript leg: %d language-neutral queries of shape %r through rbql-js (rbql.query with a pull-counting iterator) against the same reference model' % (len(cases), focus)
 
 
